@@ -178,5 +178,75 @@ PROPS = {
         "note": "Capacity <= 0 is outside the property (N >= 1). Index overflow of NextIndex (after 2^63 additions) is not modelled.",
         "assumptions": ["sync.RWMutex provides writer/reader exclusion"],
     },
+    "C09": {
+        "title": "The reader-to-sinks pipeline delivers the same messages under every schedule",
+        "design_ref": "DESIGN.md §7 C09, §4.8",
+        "technique": "Lean 4 proof (labelled transition system of reader, framer, fan-out, k consumers and main with Go channel semantics; inductive invariant, deadlock-freedom, strictly decreasing termination measure) + goroutine/channel skeleton tie + differential correspondence through the real Handle/HandleMessagesUntilEOF with perturbed consumers",
+        "text": "Kernel-checked theorems over the pipeline transition system for EVERY interleaving of its steps, every byte stream, every number of consumers, every channel capacity (0 = rendezvous), every set of nil entries "
+                "and every timing of the framer (any monotone `produced`): no reachable state has panicked (no send on or close of a closed or nil channel); what each non-nil consumer has been handed is always a prefix of the "
+                "sequential segmentation, and in every final state it is exactly that sequence; a non-final state always has an enabled step (no deadlock), every step strictly decreases a natural-number measure (every schedule "
+                "is finite), and when main has returned every helper has finished. The goroutine/channel skeletons of Handle, HandleMessages and HandleMessagesUntilEOF are regenerated and pinned. Tied to the real code by "
+                "running file_handler.Handle + appcore.HandleMessagesUntilEOF with chunked readers, slow/fast/buffered consumers, nil entries and GOMAXPROCS 1..16 against the model's sequential segmentation.",
+        "note": "PARTIAL for data races and goroutine accounting: the Go memory model and scheduler are outside the transition system (it has Go's channel semantics, not its memory semantics); the thorough tier "
+                "reruns the harness built with -race. Goroutine exit is observed by runtime.NumGoroutine settling.",
+        "assumptions": ["Go channels behave as specified (FIFO, rendezvous for capacity 0, panic on send-on-closed / double close)", "the input reader eventually reports end of file"],
+        "harness": ["C09"],
+    },
+    "C10": {
+        "title": "rtcmfilter emits exactly the valid RTCM frames of its input, in order",
+        "design_ref": "DESIGN.md §7 C10",
+        "technique": "Lean 4 proof (C03/C12 recognition theorem composed with the pipeline transition system instantiated for rtcmfilter's three consumers) + skeleton tie + overlay test driving the real HandleMessages of package main",
+        "text": "Kernel-checked theorems: in every final state of rtcmfilter's pipeline (stdout writer, display writer, recorder, any subset switched on; any schedule) the stdout consumer has handled exactly the sequential "
+                "segmentation of the input, the record and display consumers the same sequence; the bytes writeRTCMMessages emits for a segmentation are exactly the raw bytes of its typed messages, each of which is a ValidFrame "
+                "of the input (nothing else is emitted), and for every segment list (valid frames, junk, corrupted frames, truncated tail) they are exactly the concatenation of the valid frames in order. Tied to the real "
+                "application by a test file injected into package main with `go test -overlay` (nothing written to /repo) that runs HandleMessages for all four display/record combinations.",
+        "note": "The dailylogger files are read back after HandleMessages returned; dailylogger itself (go-tools) is trusted.",
+        "assumptions": ["go-tools/dailylogger writes what it is given to <dir>/<leader><date><trailer>", "no midnight rollover during a run"],
+        "harness": [],
+        "overlays": [{"pkg": "apps/rtcmfilter", "files": ["helpers_verif_test.go", "eof_verif_test.go", "rtcmfilter_verif_test.go"], "run": "TestVerifFilter"}],
+    },
+    "C11": {
+        "title": "When an application's message handling returns, all output has been written",
+        "design_ref": "DESIGN.md §7 C11",
+        "technique": "Lean 4 proof (pipeline transition system with a main that closes its channels and waits; theorem for every schedule and writer latency; kernel-checked counterexample for a main that does not wait) + skeleton tie (WaitGroup events) + overlay tests in both applications with slow writers",
+        "text": "Kernel-checked theorems: in the pipeline transition system, if main waits for its writers (waits = true) then in EVERY reachable state in which main has returned, every non-nil consumer has completely handled "
+                "the whole message sequence - for every schedule and any latency between a writer's begin and end steps; instantiated for displayrtcm3 (one buffered consumer) and rtcmfilter (three). not_waiting_loses_output is a "
+                "kernel-checked execution of the same system with waits = false in which main returns before the writer has written: the wait is necessary. The tie pins the extracted skeletons: each HandleMessages closes its "
+                "channels and performs WaitGroup Add/Done/Wait around the writer goroutines. Tied to the real code by overlay tests with writers sleeping 1/5/20 ms per call, comparing the bytes held at the instant of return.",
+        "note": "os.Exit after return and the OS flushing of an os.File are outside the model.",
+        "assumptions": ["sync.WaitGroup: Wait returns only after every Add has been matched by Done"],
+        "harness": [],
+        "overlays": [{"pkg": "apps/rtcmfilter", "files": ["helpers_verif_test.go", "eof_verif_test.go", "rtcmfilter_verif_test.go"], "run": "TestVerifFilter"},
+                     {"pkg": "apps/displayrtcm3", "files": ["helpers_verif_test.go", "eof_verif_test.go", "display_verif_test.go"], "run": "TestVerifDisplay"}],
+    },
+    "C16": {
+        "title": "rtcmlogger passes its input through unchanged and records an identical copy",
+        "design_ref": "DESIGN.md §7 C16",
+        "technique": "Lean 4 proof (copy loop by induction on the blocks; recorder hand-over as an instance of the pipeline transition system with a waiting main; counterexample without the wait) + skeleton tie + process-level runs of the real binary, incl. a build with a delayed recorder",
+        "text": "Kernel-checked theorems: for every list of blocks read from stdin (any chunking, empty blocks included) the bytes written to stdout are their concatenation and the blocks handed to the recorder are the non-empty "
+                "blocks in order; in every reachable state of the copy-loop/recorder system in which start has returned the recorder has handled every block (for every interleaving); the system cannot deadlock and every schedule is "
+                "finite; without the wait there is a kernel-checked execution in which start returns with the record incomplete. The skeleton of start/readAndWrite/recorder (unbuffered channel, close, wait for the recorder) is "
+                "regenerated and pinned. Tied to the real program at process level: the rtcmlogger binary is built from the current tree, fed stdin in random chunks, and stdout and the record file are compared after exit; "
+                "every second run uses a build whose recorder write is delayed by 40 ms (source overlay), which turns a missing wait into a deterministic failure.",
+        "note": "The OS pipe, os.File writes and go-tools/dailylogger are trusted. Runs are skipped within two minutes of local midnight (the daily log rotates by design).",
+        "assumptions": ["os.Stdin reads return the bytes of the pipe in order; dailylogger appends what it is given"],
+        "harness": [],
+        "procs": True,
+    },
+    "C19": {
+        "title": "The proxy relays both directions byte-for-byte and reports traffic safely",
+        "design_ref": "DESIGN.md §7 C19",
+        "technique": "Lean 4 proof (relay loop by induction on the chunks; parser leg = pipeline transition system with one rendezvous consumer: progress and termination; Sanitise and page assembly on character lists) + extracted template/holes/Sanitise tie + differential correspondence (Sanitise, real ReportFeed.Status) + loopback runs of the real proxy binary",
+        "text": "Kernel-checked theorems: for every chunking the bytes written upstream (and fed to the parser) are exactly the bytes read from the client; the parser leg can always move until every byte has been accepted and every "
+                "schedule of it is finite, whatever the traffic (and the parser cannot crash: C07), so parsing never stops the relay; every message listed in the report is a contiguous slice of the relayed bytes; Sanitise leaves no "
+                "'<' or '>' in any text; a page assembled from the template with the two hex dumps and the message list passed through Sanitise has exactly the template's '<' and '>' - relayed data adds none. The tie pins, from the "
+                "current source, the five holes of Status in order, how each is produced (which pass through Sanitise), Sanitise's replacement list, the template's own markup counts and the proxy's goroutine/channel skeletons. "
+                "Tied to the real code by Sanitise vs the model, by the real ReportFeed.Status over a real queue filled by the real handler with markup-carrying traffic, and by a TCP loopback session through the real proxy binary "
+                "in both directions with a /status/report fetch.",
+        "note": "TCP, net/http, go-tools/statusreporter and TLS are trusted. The loopback relay comparison is per session (one client connection).",
+        "assumptions": ["net.Conn Read/Write deliver bytes in order", "the leaders (connection number, formatted time) contain no markup"],
+        "harness": ["C19"],
+        "procs": True,
+    },
 }
 NOT_APPLICABLE = {}
